@@ -10,22 +10,34 @@ import PortusModel.Props.C14
 /-!
 # `compile ⊑ lower`: on the fragment of C01 the real compiler emits the reference lowering
 
-See the end of the file for the final statements (`compile_refines_lower`).
+See the end of the file for the final statement (`compile_refines_lower`): it holds for **every**
+stratified program the compiler and the encoder accept — no hypothesis about the order of reads and
+assignments.
 
-**The statement as first proposed is false.** `Stratified` alone lets through
-`(def (Report (acked 0)) (c 0)) (when true (:= x y) (:= x 3))` with `y` never assigned: reading the
-unbound `y` makes it a local of recorded type `Name("y")`, the first bind copies that type to `x`,
-and the second bind's `update_type(&s, …)` (with `s = "y"`, the name stored in the *type* of `x`)
-re-types **and returns the register of `y`**, so the compiler emits `bind y y 3`, where the source (and
-`lowerStmt`) say `bind x x 3`. The added hypothesis `DefBeforeUse` (decidable, syntactic: every name
-read by a condition or a right-hand side is built-in, declared, or the target of an earlier
-statement in program order) excludes it (sufficient, not necessary). The counter-example is checked in
-`CompileLower2.lean` (`refines_without_defBeforeUse_false`, `cex_instr`).
+History. Before the repair F11 the statement was false: `Stratified` alone lets through
+`(def (Report (acked 0)) (c 0)) (when true (:= x y) (:= x 3))` with `y` never assigned; reading the
+unbound `y` makes it a local of recorded type `Name("y")`, the first bind *copied that type to `x`*,
+and the second bind's `update_type(&s, …)` (with `s = "y"`, the name stored in the type of `x`)
+re-typed and returned the register of `y`: the compiler emitted `bind y y 3` where the source (and
+`lowerStmt`) say `bind x x 3`. The proof then carried the hypothesis `DefBeforeUse` (every name read
+is built-in, declared, or the target of an earlier statement) and the invariant "no recorded type is
+a name". With the repaired `bindTarget` (an untyped right-hand side gives no type to the target) the
+invariant that holds between statements is weaker and needs no hypothesis:
+
+    every binding whose recorded type is `Name s` is the binding of the name `s` itself
+
+(`Inv.selfName`): reading a never-assigned name creates such a local (`compileAtom`), `(:= x y)` with
+an untyped `y` leaves `x` untyped, a later `(:= x 3)` re-types `x` through its own name
+(`bindTarget_self`). Operators reject untyped operands (`combine`), so an untyped register reaches an
+instruction only as an operand of a plain bind, `if`, `!if` or `ewma`; the reference lowering finds the
+same register in the *final* scope because bindings never move (`Reach.fwd`, `rhoOf_of_reach`).
+`DefBeforeUse` is kept below as a definition only (no theorem uses it): the non-vacuity examples in
+`CompileLower2.lean` and `Props/C01Sim.lean` show a program outside it that the theorems now cover.
 -/
 namespace Portus.Lang.Frag
 open Portus Portus.Lang Portus.Vm
 
-/-! ## the added hypothesis -/
+/-! ## the former hypothesis `DefBeforeUse` (a definition only; no theorem needs it any more) -/
 
 /-- names read by an expression -/
 def readsE : Expr → List Name
@@ -60,7 +72,8 @@ def eventsBound (B : List Name) : List Event → Bool
 
 /-- **no use before definition**: in program order (events in source order, the condition of an event
 before its statements), every name read by a condition or by the right-hand side of a statement is a
-built-in name, a declared variable, or the target of an earlier statement. -/
+built-in name, a declared variable, or the target of an earlier statement. (Hypothesis of T-A before
+the repair F11; not a hypothesis of anything now.) -/
 def DefBeforeUse (ds : List Decl) (evs : List Event) : Bool :=
   eventsBound ((primNames ++ implNames).map (·.toList) ++ ds.map (·.var)) evs
 
@@ -228,29 +241,57 @@ theorem compileExpr_lower {scF : Scope} {e : Expr} (hp : pureE e = true) {sc : S
 
 /-! ## the invariant between statements -/
 
-/-- between statements: the names in `B` are bound, no recorded type is a name, the event flag is
-the implicit register 0 -/
-structure Inv (B : List Name) (sc : Scope) : Prop where
-  cov : ∀ x ∈ B, ∃ r, sc.get x = some r
-  noName : ∀ n r, sc.get n = some r → ∀ s, r.getType ≠ .name s
+/-- between statements: a binding whose recorded type is still a name is the binding of that very
+name (an untyped local carries its own name), and the event flag is the implicit register 0 -/
+structure Inv (sc : Scope) : Prop where
+  selfName : ∀ n r s, sc.get n = some r → r.getType = .name s → s = n
   flag : sc.get flagName = some (.implicit 0 (.bool none))
 
 theorem get_of_named {a b : Scope} (h : b.named = a.named) (n : Name) : b.get n = a.get n := by
   unfold Scope.get; rw [h]
 
-theorem Inv.of_named {B : List Name} {a b : Scope} (h : b.named = a.named) (hi : Inv B a) : Inv B b := by
-  refine ⟨?_, ?_, ?_⟩
-  · intro x hx; rw [get_of_named h]; exact hi.cov x hx
-  · intro n r hg; rw [get_of_named h] at hg; exact hi.noName n r hg
+theorem Inv.of_named {a b : Scope} (h : b.named = a.named) (hi : Inv a) : Inv b := by
+  refine ⟨?_, ?_⟩
+  · intro n r s hg; rw [get_of_named h] at hg; exact hi.selfName n r s hg
   · rw [get_of_named h]; exact hi.flag
 
-theorem Inv.mono {B B' : List Name} {sc : Scope} (h : ∀ x ∈ B', x ∈ B) (hi : Inv B sc) : Inv B' sc :=
-  ⟨fun x hx => hi.cov x (h x hx), hi.noName, hi.flag⟩
-
-theorem Inv.flag_reach {B : List Name} {sc sc' : Scope} (hi : Inv B sc) (hr : Reach False sc sc') :
+theorem Inv.flag_reach {sc sc' : Scope} (hi : Inv sc) (hr : Reach False sc sc') :
     sc'.get flagName = some (.implicit 0 (.bool none)) := by
   obtain ⟨r', h1, h2⟩ := hr.fwd hi.flag
   rw [h1, Reg.slot_builtin (r := .implicit 0 (.bool none)) rfl h2]
+
+/-- `b` extends `a` by untyped locals: every name keeps its binding, or was unbound and is now a
+local whose recorded type is its own name. This is all that reading names does to a scope. -/
+def Ext (a b : Scope) : Prop :=
+  ∀ m, b.get m = a.get m ∨ (a.get m = none ∧ ∃ i, b.get m = some (.local i (.name m)))
+
+theorem Ext.refl (a : Scope) : Ext a a := fun _ => Or.inl rfl
+
+theorem Ext.of_named {a b : Scope} (h : b.named = a.named) : Ext a b :=
+  fun m => Or.inl (get_of_named h m)
+
+theorem Ext.trans {a b c : Scope} (h1 : Ext a b) (h2 : Ext b c) : Ext a c := by
+  intro m
+  rcases h2 m with e2 | ⟨n2, i, e2⟩
+  · rcases h1 m with e1 | ⟨n1, i, e1⟩
+    · exact Or.inl (e2.trans e1)
+    · exact Or.inr ⟨n1, i, e2.trans e1⟩
+  · rcases h1 m with e1 | ⟨n1, j, e1⟩
+    · exact Or.inr ⟨by rw [← e1]; exact n2, i, e2⟩
+    · rw [e1] at n2; cases n2
+
+theorem Ext.get_bound {a b : Scope} (h : Ext a b) {m : Name} {r : Reg} (hg : a.get m = some r) :
+    b.get m = some r := by
+  rcases h m with e | ⟨n, -⟩
+  · rw [e, hg]
+  · rw [hg] at n; cases n
+
+theorem Ext.inv {a b : Scope} (h : Ext a b) (hi : Inv a) : Inv b := by
+  refine ⟨?_, h.get_bound hi.flag⟩
+  intro n r s hg hs
+  rcases h n with e | ⟨-, i, e⟩
+  · rw [e] at hg; exact hi.selfName n r s hg hs
+  · rw [e] at hg; cases hg; cases hs; rfl
 
 /-- the right-hand side of a statement of the fragment -/
 def RhsOk (rhs : Expr) : Prop :=
@@ -279,54 +320,51 @@ theorem combine_cond {o : Op} (ho : o = .if ∨ o = .notIf ∨ o = .ewma) {is : 
      · cases h
      · cases h; rfl)
 
-/-- a pure expression whose names are all bound (to registers whose recorded type is not a name)
-leaves the bindings alone, and the recorded type of its result is not a name -/
-theorem compileExpr_frame {e : Expr} (hp : pureE e = true) {sc : Scope} {c : CE}
-    (h : compileExpr e sc = .ok c)
-    (hb : ∀ y ∈ readsE e, ∃ r, sc.get y = some r ∧ ∀ s, r.getType ≠ .name s) :
-    c.sc.named = sc.named ∧ ∀ s, c.reg.getType ≠ .name s := by
+theorem compileAtom_ext {p : Prim} {sc : Scope} {c : CE} (h : compileAtom p sc = .ok c) : Ext sc c.sc := by
+  cases p with
+  | bool b => cases h; exact Ext.refl _
+  | num n => cases h; exact Ext.refl _
+  | name x =>
+    obtain ⟨-, -, -, ⟨-, e⟩ | ⟨h0, -, e⟩⟩ := compileAtom_name h
+    · rw [e]; exact Ext.refl _
+    · rw [e]
+      intro m
+      by_cases hm : m = x
+      · subst hm
+        exact Or.inr ⟨h0, sc.numLocal, regGet_regInsert_self _ _ _⟩
+      · left
+        show regGet m (regInsert x _ sc.named) = sc.get m
+        rw [regGet_regInsert_ne hm]; rfl
+
+/-- compiling a pure expression only *adds* bindings, and only of untyped locals under their own name
+(a never-assigned name read as an atom) -/
+theorem compileExpr_ext {e : Expr} (hp : pureE e = true) {sc : Scope} {c : CE}
+    (h : compileExpr e sc = .ok c) : Ext sc c.sc := by
   induction e generalizing sc c with
   | cmd _ => cases hp
   | none => cases hp
   | atom p =>
     simp only [compileExpr] at h
-    cases p with
-    | bool b => cases h; exact ⟨rfl, fun s e => by cases e⟩
-    | num n => cases h; exact ⟨rfl, fun s e => by cases e⟩
-    | name x =>
-      obtain ⟨r, hg, hn⟩ := hb x (by simp [readsE])
-      obtain ⟨-, -, -, ⟨h1, h2⟩ | ⟨h1, -⟩⟩ := compileAtom_name h
-      · rw [hg] at h1; cases h1
-        rw [h2]; exact ⟨rfl, hn⟩
-      · rw [hg] at h1; cases h1
+    exact compileAtom_ext h
   | sexp o le re ihl ihr =>
     obtain ⟨⟨code, ho⟩, hpl, hpr⟩ := pureE_sexp hp
     unfold compileExpr at h
     obtain ⟨l, hl, h⟩ := Out.bind_eq_ok.mp h
     obtain ⟨r, hr', h⟩ := Out.bind_eq_ok.mp h
-    obtain ⟨t, o', rfl, -, ht⟩ := combine_pure ho h
-    obtain ⟨nl, -⟩ := ihl hpl hl (fun y hy => hb y (by simp [readsE, hy]))
-    obtain ⟨nr, -⟩ := ihr hpr hr' (fun y hy => by
-      rw [get_of_named nl]; exact hb y (by simp [readsE, hy]))
-    refine ⟨nr.trans nl, ?_⟩
-    intro s e
-    rcases ht with rfl | rfl <;> cases e
+    obtain ⟨t, o', rfl, -, -⟩ := combine_pure ho h
+    exact ((ihl hpl hl).trans (ihr hpr hr')).trans (Ext.of_named rfl)
 
-theorem rhs_frame {rhs : Expr} (hp : RhsOk rhs) {sc : Scope} {c : CE}
-    (h : compileExpr rhs sc = .ok c)
-    (hb : ∀ y ∈ readsE rhs, ∃ r, sc.get y = some r ∧ ∀ s, r.getType ≠ .name s) :
-    c.sc.named = sc.named ∧ ∀ s, c.reg.getType ≠ .name s := by
+theorem rhs_ext {rhs : Expr} (hp : RhsOk rhs) {sc : Scope} {c : CE}
+    (h : compileExpr rhs sc = .ok c) : Ext sc c.sc := by
   rcases hp with hp | ⟨o, a, b, rfl, ho, hpa, hpb⟩
-  · exact compileExpr_frame hp h hb
+  · exact compileExpr_ext hp h
   · unfold compileExpr at h
     obtain ⟨l, hl, h⟩ := Out.bind_eq_ok.mp h
     obtain ⟨r, hr', h⟩ := Out.bind_eq_ok.mp h
     have := combine_cond ho h
     subst this
-    obtain ⟨nl, -⟩ := compileExpr_frame hpa hl (fun y hy => hb y (by simp [readsE, hy]))
-    obtain ⟨nr, -⟩ := compileExpr_frame hpb hr' (fun y hy => by
-      rw [get_of_named nl]; exact hb y (by simp [readsE, hy]))
-    exact ⟨nr.trans nl, fun s e => by cases e⟩
+    show Ext sc r.sc
+    exact (compileExpr_ext hpa hl).trans (compileExpr_ext hpb hr')
 
 /-! ## the `Bind` arm -/
 
@@ -346,21 +384,22 @@ theorem bindEmit_sc {is : List Instr} {left right : Reg} {sc : Scope} {c : CE}
     · cases h
 
 /-- when the left operand is the binding of `x` and its recorded type, if a name, is `x` itself,
-the re-typing step returns the binding of `x` -/
+the re-typing step returns the binding of `x`, touches no other binding, and the recorded type of the
+result, if still a name (untyped right-hand side), is again `x` -/
 theorem bindTarget_self {x : Name} {left right : Reg} {sc : Scope} {left' : Reg} {sc' : Scope}
     (hg : sc.get x = some left) (hself : ∀ s, left.getType = .name s → s = x)
     (h : bindTarget left right sc = .ok (left', sc')) :
     sc'.get x = some left' ∧ (∀ m, m ≠ x → sc'.get m = sc.get m) ∧
-    ((∀ s, right.getType ≠ .name s) → ∀ s, left'.getType ≠ .name s) := by
+    (∀ s, left'.getType = .name s → s = x) := by
   unfold bindTarget at h
   split at h
   · rename_i s hs
     have := hself s hs
     subst this
     split at h
-    · rename_i s2 hs2
-      cases h
-      exact ⟨hg, fun _ _ => rfl, fun hr _ => absurd hs2 (hr s2)⟩
+    · cases h
+      exact ⟨hg, fun _ _ => rfl, hself⟩
+    rename_i hnn
     obtain ⟨r1, h1, h2, rfl⟩ := Scope.updateType_ok h
     refine ⟨?_, ?_, ?_⟩
     · show regGet s (regSet s left' sc.named) = some left'
@@ -368,70 +407,46 @@ theorem bindTarget_self {x : Name} {left right : Reg} {sc : Scope} {left' : Reg}
     · intro m hm
       show regGet m (regSet s left' sc.named) = sc.get m
       rw [get_regSet_bound h1, if_neg hm]
-    · intro hr s'
-      rw [Reg.setTy_getType h2]; exact hr s'
-  · rename_i hn
-    cases h
-    exact ⟨hg, fun _ _ => rfl, fun _ s => hn s⟩
+    · intro s' hs'
+      rw [Reg.setTy_getType h2] at hs'
+      exact absurd hs' (hnn s')
+  · cases h
+    exact ⟨hg, fun _ _ => rfl, hself⟩
 
 /-- the common part of every statement `(:= x rhs)` -/
-theorem bind_decomp {B : List Name} {x : Name} {rhs : Expr} {sc : Scope} {c : CE}
-    (hrhs : RhsOk rhs) (hrd : ∀ y ∈ readsE rhs, y ∈ B) (hinv : Inv B sc)
+theorem bind_decomp {x : Name} {rhs : Expr} {sc : Scope} {c : CE}
+    (hrhs : RhsOk rhs) (hinv : Inv sc)
     (h : compileExpr (.sexp .bind (.atom (.name x)) rhs) sc.clearTmps = .ok c) :
     ∃ (l r : CE) (left' : Reg), compileExpr rhs l.sc = .ok r ∧ l.sc.tmp = [] ∧ Reach False r.sc c.sc ∧
-      bindEmit r.instrs left' r.reg c.sc = .ok c ∧ c.sc.get x = some left' ∧ Inv (x :: B) c.sc := by
+      bindEmit r.instrs left' r.reg c.sc = .ok c ∧ c.sc.get x = some left' ∧ Inv c.sc := by
   have hreach : Reach False sc c.sc :=
     (Reach.single (Step.tmp _ _)).trans (compileExpr_reach (F := False) (fun f => f.elim) h).1
   unfold compileExpr at h
   obtain ⟨l, hl, h⟩ := Out.bind_eq_ok.mp h
   obtain ⟨r, hr', h⟩ := Out.bind_eq_ok.mp h
   simp only [compileExpr] at hl
-  obtain ⟨li, lt, lg, lcase⟩ := compileAtom_name hl
+  obtain ⟨li, lt, lg, -⟩ := compileAtom_name hl
   have hrc := (combine_reach (F := False) (fun f => f.elim) h).1
   simp only [combine] at h
   obtain ⟨left', sc'', hbt, hbe⟩ := combineBind_ok_split h
   rw [li, List.nil_append] at hbe
   obtain ⟨e1, -⟩ := bindEmit_sc hbe
   subst e1
-  -- the scope after the left operand
-  have hlget : ∀ m, m ≠ x → l.sc.get m = sc.get m := by
-    intro m hm
-    rcases lcase with ⟨-, e⟩ | ⟨-, -, e⟩
-    · rw [e]; rfl
-    · rw [e]
-      show regGet m (regInsert x _ sc.named) = sc.get m
-      rw [regGet_regInsert_ne hm]; rfl
-  have hself : ∀ s, l.reg.getType = .name s → s = x := by
-    intro s hs
-    rcases lcase with ⟨e, -⟩ | ⟨-, e, -⟩
-    · exact absurd hs (hinv.noName x l.reg e s)
-    · rw [e] at hs; cases hs; rfl
-  have hbl : ∀ y ∈ readsE rhs, ∃ r0, l.sc.get y = some r0 ∧ ∀ s, r0.getType ≠ .name s := by
-    intro y hy
-    obtain ⟨r0, h0⟩ := hinv.cov y (hrd y hy)
-    rcases lcase with ⟨-, e⟩ | ⟨e0, -, -⟩
-    · rw [e]; exact ⟨r0, h0, hinv.noName y r0 h0⟩
-    · have hyx : y ≠ x := by
-        intro e; subst e
-        have : sc.get y = none := e0
-        rw [h0] at this; cases this
-      rw [hlget y hyx]; exact ⟨r0, h0, hinv.noName y r0 h0⟩
-  obtain ⟨nr, tr⟩ := rhs_frame hrhs hr' hbl
-  have hgx : r.sc.get x = some l.reg := by rw [get_of_named nr]; exact lg
+  -- the invariant after the left operand, and after the right-hand side
+  have hinv0 : Inv sc.clearTmps := Inv.of_named (a := sc) (b := sc.clearTmps) rfl hinv
+  have hinvl : Inv l.sc := (compileAtom_ext hl).inv hinv0
+  have hextr : Ext l.sc r.sc := rhs_ext hrhs hr'
+  have hinvr : Inv r.sc := hextr.inv hinvl
+  have hself : ∀ s, l.reg.getType = .name s → s = x := fun s hs => hinvl.selfName x l.reg s lg hs
+  have hgx : r.sc.get x = some l.reg := hextr.get_bound lg
   obtain ⟨g1, g2, g3⟩ := bindTarget_self hgx hself hbt
-  refine ⟨l, r, left', hr', ?_, hrc, hbe, g1, ?_, ?_, ?_⟩
+  refine ⟨l, r, left', hr', ?_, hrc, hbe, g1, ?_, ?_⟩
   · rw [lt]; rfl
-  · intro y hy
-    rcases List.mem_cons.mp hy with rfl | hy
-    · exact ⟨_, g1⟩
-    · obtain ⟨r0, h0⟩ := hinv.cov y hy
-      obtain ⟨r1, h1, -⟩ := hreach.fwd h0
-      exact ⟨r1, h1⟩
-  · intro n r0 hg
+  · intro n r0 s hg hs
     by_cases e : n = x
-    · subst e; rw [g1] at hg; cases hg; exact g3 tr
-    · rw [g2 n e, get_of_named nr, hlget n e] at hg
-      exact hinv.noName n r0 hg
+    · subst e; rw [g1] at hg; cases hg; exact g3 s hs
+    · rw [g2 n e] at hg
+      exact hinvr.selfName n r0 s hg hs
   · exact hinv.flag_reach hreach
 
 /-! ## statements -/
@@ -471,13 +486,13 @@ theorem lowerStmt_cond {ρ : Rho} {x : Name} {o : Op} {a b : Expr} (ho : o = .if
   rcases ho with rfl | rfl | rfl <;> rfl
 
 /-- **stage 2.** A statement of the fragment compiles to its reference lowering. -/
-theorem compileStmt_lower {scF : Scope} {B : List Name} {x : Name} {rhs : Expr} {sc : Scope} {c : CE}
-    (hrhs : RhsOk rhs) (hrd : ∀ y ∈ readsE rhs, y ∈ B) (hinv : Inv B sc)
+theorem compileStmt_lower {scF : Scope} {x : Name} {rhs : Expr} {sc : Scope} {c : CE}
+    (hrhs : RhsOk rhs) (hinv : Inv sc)
     (h : compileExpr (.sexp .bind (.atom (.name x)) rhs) sc.clearTmps = .ok c)
     (hr : Reach False c.sc scF) (hser : ∀ i ∈ c.instrs, SerI i) :
     lowerStmt (rhoOf scF) (.sexp .bind (.atom (.name x)) rhs) = some (c.instrs.map toVInstr) ∧
-    Inv (x :: B) c.sc := by
-  obtain ⟨l, r, left', hr', lt, hrc, hbe, hgx, hinv'⟩ := bind_decomp hrhs hrd hinv h
+    Inv c.sc := by
+  obtain ⟨l, r, left', hr', lt, hrc, hbe, hgx, hinv'⟩ := bind_decomp hrhs hinv h
   refine ⟨?_, hinv'⟩
   have hρ : rhoOf scF x = some (toVReg left') := rhoOf_of_reach hr hgx
   have rr : Reach False r.sc scF := hrc.trans hr
@@ -542,26 +557,19 @@ theorem toVReg_flag : toVReg (.implicit 0 (.bool none)) = vFlag := rfl
 theorem isEmpty_snoc {α : Type} (xs : List α) (y : α) : (xs ++ [y]).isEmpty = false := by
   cases xs <;> rfl
 
-theorem inv_reads {B : List Name} {sc : Scope} (hinv : Inv B sc) {e : Expr} (hrd : ∀ y ∈ readsE e, y ∈ B) :
-    ∀ y ∈ readsE e, ∃ r, sc.get y = some r ∧ ∀ s, r.getType ≠ .name s := by
-  intro y hy
-  obtain ⟨r0, h0⟩ := hinv.cov y (hrd y hy)
-  exact ⟨r0, h0, hinv.noName y r0 h0⟩
-
 /-- **stage 3a.** -/
-theorem compileFlag_lower {scF : Scope} {B : List Name} {flag : Expr} {sc : Scope} {is : List Instr}
-    {sc1 : Scope} (hp : pureE flag = true) (hrd : ∀ y ∈ readsE flag, y ∈ B) (hinv : Inv B sc)
+theorem compileFlag_lower {scF : Scope} {flag : Expr} {sc : Scope} {is : List Instr}
+    {sc1 : Scope} (hp : pureE flag = true) (hinv : Inv sc)
     (h : compileFlag flag sc = .ok (is, sc1)) (hr : Reach False sc1 scF) (hser : ∀ i ∈ is, SerI i) :
-    lowerFlag (rhoOf scF) flag = some (is.map toVInstr) ∧ Inv B sc1 := by
+    lowerFlag (rhoOf scF) flag = some (is.map toVInstr) ∧ Inv sc1 := by
   unfold compileFlag at h
   obtain ⟨c, hc, h1⟩ := Out.bind_eq_ok.mp h
   obtain ⟨fr, hfr, h2⟩ := Out.bind_eq_ok.mp h1
   clear h h1
   have h := h2
   clear h2
-  have hinv0 : Inv B sc.clearTmps := Inv.of_named (a := sc) (b := sc.clearTmps) rfl hinv
-  obtain ⟨nc, -⟩ := compileExpr_frame hp hc (inv_reads hinv0 hrd)
-  have hinvc : Inv B c.sc := Inv.of_named nc hinv0
+  have hinv0 : Inv sc.clearTmps := Inv.of_named (a := sc) (b := sc.clearTmps) rfl hinv
+  have hinvc : Inv c.sc := (compileExpr_ext hp hc).inv hinv0
   have hfr' : fr = .implicit 0 (.bool none) := by
     have := hinvc.flag
     rw [show flagName = "__eventFlag".toList from rfl] at this
@@ -627,30 +635,22 @@ theorem stmtOk_inv {e : Expr} (h : stmtOk e = true) :
   unfold stmtOk at h
   split at h <;> first | exact Or.inl rfl | exact Or.inr ⟨_, _, rfl⟩ | cases h
 
-theorem all_contains {B : List Name} {l : List Name} (h : l.all (fun x => B.contains x) = true) :
-    ∀ y ∈ l, y ∈ B := by
-  intro y hy
-  have := List.all_eq_true.mp h y hy
-  exact List.contains_iff_mem.mp this
-
 /-- **stage 3b.** -/
-theorem compileBody_lower {scF : Scope} {body : List Expr} {B : List Name} {sc : Scope} {is : List Instr}
-    {sc' : Scope} (hst : ∀ e ∈ body, stmtOk e = true) (hbd : bodyBound B body = true) (hinv : Inv B sc)
+theorem compileBody_lower {scF : Scope} {body : List Expr} {sc : Scope} {is : List Instr}
+    {sc' : Scope} (hst : ∀ e ∈ body, stmtOk e = true) (hinv : Inv sc)
     (h : compileBody body sc = .ok (is, sc')) (hr : Reach False sc' scF) (hser : ∀ i ∈ is, SerI i) :
-    lowerBody (rhoOf scF) body = some (is.map toVInstr) ∧ Inv (bodyOut B body) sc' := by
-  induction body generalizing B sc is with
+    lowerBody (rhoOf scF) body = some (is.map toVInstr) ∧ Inv sc' := by
+  induction body generalizing sc is with
   | nil =>
     simp only [compileBody, Out.ok.injEq, Prod.mk.injEq] at h
     obtain ⟨rfl, rfl⟩ := h
     exact ⟨rfl, hinv⟩
   | cons e rest ih =>
-    simp only [bodyBound, Bool.and_eq_true] at hbd
-    obtain ⟨hrd, hbd⟩ := hbd
     have hrest : ∀ e ∈ rest, stmtOk e = true := fun e he => hst e (List.mem_cons_of_mem _ he)
     unfold compileBody at h
     rcases stmtOk_inv (hst e List.mem_cons_self) with rfl | ⟨x, rhs, rfl⟩
     · rw [if_pos rfl] at h
-      obtain ⟨e1, e2⟩ := ih hrest hbd hinv h hser
+      obtain ⟨e1, e2⟩ := ih hrest hinv h hser
       refine ⟨?_, e2⟩
       simp only [lowerBody, lowerStmt, e1, List.nil_append]
     · rw [if_neg (by simp)] at h
@@ -663,8 +663,8 @@ theorem compileBody_lower {scF : Scope} {body : List Expr} {B : List Name} {sc :
         obtain ⟨rfl, rfl⟩ := h
         have hrc : Reach False c.sc scF := (compileBody_reach (F := False) (fun f => f.elim) hq).trans hr
         obtain ⟨s1, s2⟩ := compileStmt_lower (scF := scF) (rhsOk_of_stmtOk (hst _ List.mem_cons_self))
-          (all_contains hrd) hinv hc hrc (fun i hi => hser i (List.mem_append_left _ hi))
-        obtain ⟨e1, e2⟩ := ih hrest hbd s2 hq (fun i hi => hser i (List.mem_append_right _ hi))
+          hinv hc hrc (fun i hi => hser i (List.mem_append_left _ hi))
+        obtain ⟨e1, e2⟩ := ih hrest s2 hq (fun i hi => hser i (List.mem_append_right _ hi))
         refine ⟨?_, e2⟩
         simp only [lowerBody, s1, e1, List.map_append]
 
@@ -672,11 +672,11 @@ def evToExpr (e : EvRec) : Libccp.Expr :=
   { condStart := e.flagIdx, numCond := e.numFlag, eventStart := e.bodyIdx, numEvent := e.numBody }
 
 /-- **stage 3c.** -/
-theorem compileEvents_lower {scF : Scope} {evs : List Event} {B : List Name} {idx : Nat} {sc : Scope} {cp : CP}
-    (hst : Stratified evs = true) (hbd : eventsBound B evs = true) (hinv : Inv B sc)
+theorem compileEvents_lower {scF : Scope} {evs : List Event} {idx : Nat} {sc : Scope} {cp : CP}
+    (hst : Stratified evs = true) (hinv : Inv sc)
     (h : compileEvents evs idx sc = .ok cp) (hr : Reach False cp.sc scF) (hser : ∀ i ∈ cp.instrs, SerI i) :
     lowerEvents (rhoOf scF) evs idx = some ⟨cp.events.map evToExpr, cp.instrs.map toVInstr⟩ := by
-  induction evs generalizing B idx sc cp with
+  induction evs generalizing idx sc cp with
   | nil =>
     simp only [compileEvents, Out.ok.injEq] at h
     subst h
@@ -684,8 +684,6 @@ theorem compileEvents_lower {scF : Scope} {evs : List Event} {B : List Name} {id
   | cons ev rest ih =>
     simp only [Stratified, List.all_cons, Bool.and_eq_true] at hst
     obtain ⟨⟨hpf, hsb⟩, hsr⟩ := hst
-    simp only [eventsBound, Bool.and_eq_true] at hbd
-    obtain ⟨⟨hrf, hbb⟩, hbr⟩ := hbd
     unfold compileEvents at h
     obtain ⟨q1, h1, h⟩ := Out.bind_eq_ok.mp h
     obtain ⟨fi, sc1⟩ := q1
@@ -697,84 +695,15 @@ theorem compileEvents_lower {scF : Scope} {evs : List Event} {B : List Name} {id
     simp only at hr hser
     have r2 : Reach False sc2 scF := (compileEvents_reach (F := False) (fun f => f.elim) h3).trans hr
     have r1 : Reach False sc1 scF := (compileBody_reach (F := False) (fun f => f.elim) h2).trans r2
-    obtain ⟨f1, f2⟩ := compileFlag_lower (scF := scF) hpf (all_contains hrf) hinv h1 r1
+    obtain ⟨f1, f2⟩ := compileFlag_lower (scF := scF) hpf hinv h1 r1
       (fun i hi => hser i (List.mem_append_left _ (List.mem_append_left _ hi)))
-    obtain ⟨b1, b2⟩ := compileBody_lower (scF := scF) (List.all_eq_true.mp hsb) hbb f2 h2 r2
+    obtain ⟨b1, b2⟩ := compileBody_lower (scF := scF) (List.all_eq_true.mp hsb) f2 h2 r2
       (fun i hi => hser i (List.mem_append_left _ (List.mem_append_right _ hi)))
-    have t1 := ih (by simpa [Stratified] using hsr) hbr b2 h3 hr
+    have t1 := ih (by simpa [Stratified] using hsr) b2 h3 hr
       (fun i hi => hser i (List.mem_append_right _ hi))
     simp only [lowerEvents, f1, b1, List.length_map, t1, List.map_cons, List.map_append, evToExpr]
 
 /-! ## the scope compilation starts from -/
-
-theorem foldl_newReport_bound {rs : List Decl} {sc sc' : Scope}
-    (h : rs.foldlM (fun sc d => sc.newReport d.vol d.var d.init) sc = .ok sc') (n : Name)
-    (hn : (sc.get n).isSome = true ∨ ∃ d ∈ rs, d.var = n) : (sc'.get n).isSome = true := by
-  induction rs generalizing sc with
-  | nil =>
-    simp only [List.foldlM_nil, Out.pure_eq, Out.ok.injEq] at h
-    subst h
-    rcases hn with hn | ⟨d, hd, -⟩
-    · exact hn
-    · cases hd
-  | cons d rest ih =>
-    simp only [List.foldlM_cons] at h
-    obtain ⟨sc1, h1, h⟩ := Out.bind_eq_ok.mp h
-    rw [Scope.newReport_eq] at h1
-    split at h1
-    · cases h1
-      refine ih h ?_
-      rcases hn with hn | ⟨d', hd', e⟩
-      · exact Or.inl (regGet_isSome_regInsert _ _ _ _ hn)
-      · rcases List.mem_cons.mp hd' with rfl | hd'
-        · left
-          show (regGet n (regInsert d'.var _ sc.named)).isSome = true
-          rw [e, regGet_regInsert_self]; rfl
-        · exact Or.inr ⟨d', hd', e⟩
-    · cases h1
-
-theorem foldl_newControl_bound {cs : List Decl} {sc sc' : Scope}
-    (h : cs.foldlM (fun sc d => sc.newControl d.vol d.var d.init) sc = .ok sc') (n : Name)
-    (hn : (sc.get n).isSome = true ∨ ∃ d ∈ cs, d.var = n) : (sc'.get n).isSome = true := by
-  induction cs generalizing sc with
-  | nil =>
-    simp only [List.foldlM_nil, Out.pure_eq, Out.ok.injEq] at h
-    subst h
-    rcases hn with hn | ⟨d, hd, -⟩
-    · exact hn
-    · cases hd
-  | cons d rest ih =>
-    simp only [List.foldlM_cons] at h
-    obtain ⟨sc1, h1, h⟩ := Out.bind_eq_ok.mp h
-    rw [Scope.newControl_eq] at h1
-    split at h1
-    · cases h1
-      refine ih h ?_
-      rcases hn with hn | ⟨d', hd', e⟩
-      · exact Or.inl (regGet_isSome_regInsert _ _ _ _ hn)
-      · rcases List.mem_cons.mp hd' with rfl | hd'
-        · left
-          show (regGet n (regInsert d'.var _ sc.named)).isSome = true
-          rw [e, regGet_regInsert_self]; rfl
-        · exact Or.inr ⟨d', hd', e⟩
-    · cases h1
-
-theorem declareAll_bound {sc sc' : Scope} {ds : List Decl} (h : declareAll sc ds = .ok sc') (n : Name)
-    (hn : (sc.get n).isSome = true ∨ ∃ d ∈ ds, d.var = n) : (sc'.get n).isSome = true := by
-  obtain ⟨-, -, sc1, h1, h2⟩ := declareAll_ok h
-  rcases hn with hn | ⟨d, hd, e⟩
-  · exact foldl_newControl_bound h2 n (Or.inl (foldl_newReport_bound h1 n (Or.inl hn)))
-  · by_cases hp : "Report.".toList.isPrefixOf d.var = true
-    · exact foldl_newControl_bound h2 n (Or.inl (foldl_newReport_bound h1 n
-        (Or.inr ⟨d, List.mem_filter.mpr ⟨hd, hp⟩, e⟩)))
-    · exact foldl_newControl_bound h2 n (Or.inr ⟨d, List.mem_filter.mpr ⟨hd, by rw [Bool.not_eq_true] at hp; rw [hp]; rfl⟩, e⟩)
-
-theorem builtin_bound (uid : Nat) :
-    ∀ n ∈ (primNames ++ implNames).map (·.toList), ((Scope.new uid).get n).isSome = true := by
-  intro n hn
-  rw [Scope.new_get]
-  revert n
-  decide +kernel
 
 /-- no recorded type is a name when compilation starts -/
 theorem start_noName {uid : Nat} {src : List Char} {ds : List Decl} {evs : List Event} {sc0 : Scope}
@@ -797,48 +726,28 @@ theorem start_noName {uid : Nat} {src : List Char} {ds : List Decl} {evs : List 
 theorem start_inv {uid : Nat} {src : List Char} {ds : List Decl} {evs : List Event} {sc0 : Scope}
     (hp : parseSource src = some (ds, evs)) (h0 : declareAll (Scope.new uid) ds = .ok sc0)
     (upd : List (Name × Nat)) :
-    Inv ((primNames ++ implNames).map (·.toList) ++ ds.map (·.var)) (applyUpdates sc0 upd) := by
-  refine ⟨?_, start_noName hp h0 upd, ?_⟩
-  · intro x hx
-    have hb : (sc0.get x).isSome = true := by
-      rcases List.mem_append.mp hx with hx | hx
-      · exact declareAll_bound h0 x (Or.inl (builtin_bound uid x hx))
-      · obtain ⟨d, hd, e⟩ := List.mem_map.mp hx
-        exact declareAll_bound h0 x (Or.inr ⟨d, hd, e⟩)
-    obtain ⟨r, hr⟩ := Option.isSome_iff_exists.mp hb
-    obtain ⟨r', h1, -⟩ := (applyUpdates_reach sc0 upd).fwd hr
-    exact ⟨r', h1⟩
+    Inv (applyUpdates sc0 upd) := by
+  refine ⟨?_, ?_⟩
+  · intro n r s hg hs
+    exact absurd hs (start_noName hp h0 upd n r hg s)
   · have i0 := C03.declareAll_inv2 uid ds (C03.parseSource_decl_names src ds evs hp) sc0 h0
     exact (C03.applyUpdates_inv2 i0 upd).flag
 
 /-! ## T-A
 
-The statement as first proposed — FALSE (counter-example `cexSrc` in `CompileLower2.lean`, checked by
-`refines_without_defBeforeUse_false`):
+The statement as first proposed. It was FALSE for the compiler before the repair F11 (counter-example
+`cexSrc` in `CompileLower2.lean`) and was then proved under the added hypothesis
+`DefBeforeUse ds evs = true`. For the repaired compiler it holds as proposed, with no such hypothesis. -/
 
-    theorem compile_refines_lower : ∀ uid src upd ds evs sc0 bin scF img,
-      parseSource src = some (ds, evs) → declareAll (Scope.new uid) ds = .ok sc0 →
-      compileProg evs (applyUpdates sc0 upd) = .ok (bin, scF) → Stratified evs = true →
-      bin.serialize = .ok img →
-      lowerProg (fun n => (scF.get n).map toVReg) ((defInstrs (applyUpdates sc0 upd).named).map toVInstr) evs
-        = some ⟨bin.events.map (fun e => { condStart := e.flagIdx, numCond := e.numFlag,
-                                           eventStart := e.bodyIdx, numEvent := e.numBody }),
-                bin.instrs.map toVInstr⟩
-
-The corrected statement below adds `DefBeforeUse ds evs = true`. -/
-
-/-- **T-A (`compile ⊑ lower`).** On a stratified program without use before definition that the
-encoder accepts, the compiler emits exactly the reference lowering under the final scope.
-
-Hypothesis `hdu` is **added** to the statement first proposed, which is false without it (see the
-head of the file for the counter-example). -/
+/-- **T-A (`compile ⊑ lower`).** On a stratified program that the compiler and the encoder accept, the
+compiler emits exactly the reference lowering under the final scope — whether or not names are read
+before they are assigned. -/
 theorem compile_refines_lower (uid : Nat) (src : List Char) (upd : List (Name × Nat)) (ds : List Decl)
     (evs : List Event) (sc0 : Scope) (bin : Bin) (scF : Scope) (img : Bytes)
     (hp : parseSource src = some (ds, evs))
     (h0 : declareAll (Scope.new uid) ds = .ok sc0)
     (hc : compileProg evs (applyUpdates sc0 upd) = .ok (bin, scF))
     (hst : Stratified evs = true)
-    (hdu : DefBeforeUse ds evs = true)
     (hser : bin.serialize = .ok img) :
     lowerProg (fun n => (scF.get n).map toVReg) ((defInstrs (applyUpdates sc0 upd).named).map toVInstr) evs =
       some ⟨bin.events.map (fun e => ({ condStart := e.flagIdx, numCond := e.numFlag, eventStart := e.bodyIdx,
@@ -850,7 +759,7 @@ theorem compile_refines_lower (uid : Nat) (src : List Char) (upd : List (Name ×
   simp only [Out.pure_eq, Out.ok.injEq, Prod.mk.injEq] at hc
   obtain ⟨rfl, rfl⟩ := hc
   simp only at hsi
-  have key := compileEvents_lower (scF := cp.sc) hst hdu (start_inv hp h0 upd) hcp (Reach.refl _)
+  have key := compileEvents_lower (scF := cp.sc) hst (start_inv hp h0 upd) hcp (Reach.refl _)
     (fun i hi => hsi i (List.mem_append_right _ hi))
   unfold lowerProg
   rw [List.length_map]
